@@ -6,16 +6,18 @@ Exhaustive registry walk through the choice-tree explorer (every dimension exhau
            x literal position (every formal input; variadic: the first two variadic slots)
            x fill (optional inputs around the literal absent / every formal input present)
            x dtype of the sibling operands (schema-allowed types of the shared type variable, intersected
-             with {f32,i64,f16,f64,i32,u8,bool}) x literal in {0,1,-3,2.5,-0.0,True,[1,2],[0.5]}
-  pair   : call shape {chain, two, max3, clip, where} x sibling dtype(s) x every ordered pair of literals
-           of the pool extended with {0.0, 1.0, [0.0], [-0.0], [1], [True]}
+             with {f32,i64,f16,f64,i32,u8,bool}) x literal in {0,1,-3,2.5,-0.0,True,[1,2],[0.5]} + {0.1}
+  pair   : opset x call shape {chain, two, max3, clip, where} x sibling dtype(s) x every ordered pair of
+           literals of the pool extended with {0.0, 1.0, [0.0], [-0.0], [1], [True]}
 
 Each case is observed through four front ends, no kernel is executed:
   static   `@script` on generated source, operand read back from the FunctionProto
   eager    a recording BaseEvaluator installed with evaluator.default_as
   builder  GraphBuilder with typed inputs (initializer fed to the node)
   bdyn     GraphBuilder with inputs whose type is unknown (initializer + CastLike)
-and compared with an expectation computed from onnx.defs alone (c12_spec.py).
+and compared with an expectation computed from onnx.defs alone (c12_spec.py); observation code is in
+c12_obs.py.  Finding keys: C12|<static|eager|builder|pair>|<kind>|<literal class or any>|<signature class>
+[|<op> when the canonical operator of that signature class does not show the alarm].
 """
 from __future__ import annotations
 
@@ -28,11 +30,13 @@ ID = "C12"
 LEVEL = "model_checking"
 RULE = ("exhaustive walk of onnx.defs (domain ''): every opset in the tier x every usable op visible there x every "
         "literal position (variadic: two slots) x {optional neighbours absent, all inputs present} x every "
-        "schema-allowed sibling dtype in the 7-type pool x 8 literals; plus every ordered pair of 14 literals in 5 "
-        "two-literal call shapes x sibling dtypes.  Each case is observed in 4 front ends (static, eager, builder, "
-        "builder with untyped inputs).  distinct_nontrivial = distinct (op, since_version, position, fill, dtype, "
-        "literal) / (pair shape, dtypes, literal pair) cases in which at least one front end produced a tensor that "
-        "was compared with the expectation")
+        "schema-allowed sibling dtype in the 7-type pool x 9 literals (the 8 of the property record and 0.1); plus, "
+        "per pair opset, every ordered pair of 14 literals in 5 two-literal call shapes x sibling dtypes (quick: the "
+        "second sibling of shape `two` ranges over {same, f32, i64}; thorough: all 7).  Each case is observed in 4 "
+        "front ends (static, eager, builder, builder with untyped inputs); pair cases also observe every literal "
+        "alone in each slot.  distinct_nontrivial = distinct (op, since_version, position, fill, dtype, literal) / "
+        "(opset, pair shape, dtypes, literal pair) cases in which at least one front end produced a tensor that was "
+        "compared bit-for-bit with the expectation")
 ASSUMPTIONS = [
     "onnx.defs (installed onnx) is the reference for input positions, type variables and allowed types",
     "ONNX Cast semantics for the literal pool: truncation toward zero, non-zero -> true, round-to-nearest floats; "
@@ -49,7 +53,7 @@ PAIR_OPSETS = {"quick": [18], "thorough": [13, 18, 23]}
 # plan (parent process): the whole case space is enumerated by the explorer
 # ------------------------------------------------------------------------------------------------
 
-def _driver_for(opsets, pair_opsets):
+def _driver_for(opsets, pair_opsets, full_pairs):
     def driver(ch):
         kind = ch.all("kind", ["single", "pair"])
         if kind == "single":
@@ -67,7 +71,7 @@ def _driver_for(opsets, pair_opsets):
         n = ch.all("pair-opset", pair_opsets)
         shape = ch.all("shape", spec.PAIR_SHAPES)
         d1 = ch.all("d1", spec.pair_dtypes(shape))
-        d2 = ch.all("d2", spec.pair_dtypes2(shape, d1))
+        d2 = ch.all("d2", spec.pair_dtypes2(shape, d1, full=full_pairs))
         i = ch.all("l1", range(len(spec.PAIR_POOL)))
         j = ch.all("l2", range(len(spec.PAIR_POOL)))
         return ("p", n, shape, d1, d2, i, j)
@@ -78,7 +82,7 @@ def plan(tier, seed):
     opsets = TIERS[tier]
     st = explore.Stats()
     groups = collections.OrderedDict()
-    for _, case in explore.explore(_driver_for(opsets, PAIR_OPSETS[tier]), bound=0, stats=st):
+    for _, case in explore.explore(_driver_for(opsets, PAIR_OPSETS[tier], tier == "thorough"), bound=0, stats=st):
         if case[0] == "s":
             _, n, name, p, fill, d, li = case
             groups.setdefault(("s", n, name, p), []).append([fill, d, li])
